@@ -86,7 +86,18 @@ pub(crate) mod evlog {
         let Some(path) = std::env::var_os("WILD_VERIF_LOG") else {
             return;
         };
-        let events = std::mem::take(&mut *LOG.lock().unwrap());
+        // Phases can overlap in time (string merging runs concurrently with other work), so only
+        // take the events that belong to `phase`: kinds below 20 are "gc", 20..40 are "sm".
+        let mine = |k: u8| if phase == "gc" { k < 20 } else { (20..40).contains(&k) };
+        let mut events = Vec::new();
+        LOG.lock().unwrap().retain(|e| {
+            if mine(e.0) {
+                events.push(*e);
+                false
+            } else {
+                true
+            }
+        });
         let mut out = String::new();
         for (k, a, b) in events {
             out.push_str(&format!("{phase} {k} {a} {b}\n"));
